@@ -78,7 +78,7 @@ Env ==
      \/ /\ \E t \in Thread : call[t] = NULL
         /\ \E r \in {"wait", "ErrProtoOp"} : RecvCall(FreeThread, r)
         /\ Say("recv") /\ Keep
-     \/ /\ RecvKind # "discard" /\ ~sclosed
+     \/ /\ RecvKind # "discard" /\ ~sclosed /\ Proto \notin {"xpull", "xbus"}
         /\ \E n \in {0, 1, 3} : n # opt.rq /\ SetRQ(n) /\ Say("rq " \o ToString(n)) /\ Keep
      \/ /\ Dues # {}
         /\ LET d == CHOOSE x \in Dues : \A y \in Dues : x <= y IN
